@@ -53,15 +53,27 @@ class Cand:
         self.moffs_at = None
 
 
-def gen_candidate(rng, opcode=None, two_byte=None):
+STACK_RSP_TEMPLATES = [
+    "54", "5c", "6654", "665c", "ff7424%02x", "8f4424%02x", "ffd4", "ff5424%02x", "ff1424", "ff3424", "8f0424",
+    "ffe4", "ff6424%02x", "4154", "415c", "ff74e4%02x", "c3", "ff7500", "ff30",
+]
+
+
+def gen_candidate(rng, opcode=None, two_byte=None, force=None):
     """prefixes, opcode, ModRM [SIB] [disp], random immediate tail (up to 15 bytes)"""
     c = Cand()
     b = bytearray()
     r = rng.random()
+    if force == "stackrsp":
+        t = rng.choice(STACK_RSP_TEMPLATES)
+        if "%" in t:
+            t = t % rng.choice([0, 8, 0x10, 0xf8, 0x18, 0x80 - 8])
+        c.bytes = bytes.fromhex(t) + rng.randbytes(6)
+        return c
     # legacy prefixes
-    if rng.random() < 0.08:
+    if rng.random() < 0.10:
         b.append(rng.choice([0x64, 0x65]))
-    if rng.random() < 0.04:
+    if rng.random() < 0.10 or force == "a32":
         b.append(0x67)
     if r < 0.25:
         b.append(0x66)
@@ -86,6 +98,13 @@ def gen_candidate(rng, opcode=None, two_byte=None):
         mod = rng.choice([0, 0, 1, 2, 3, 3, 3])
         reg = rng.randrange(8)
         rm = rng.choice([0, 1, 2, 3, 4, 4, 5, 5, 6, 7])
+        if force == "a32":
+            mod = rng.choice([0, 1, 1, 2, 2])
+        if force == "rsp":
+            if rng.random() < 0.5:
+                mod, rm = 3, 4
+            else:
+                mod, rm = rng.choice([0, 1, 2]), 4
         b.append((mod << 6) | (reg << 3) | rm)
         if mod != 3:
             base = None
@@ -95,6 +114,8 @@ def gen_candidate(rng, opcode=None, two_byte=None):
                     sib = (sib & 0xF8) | 5  # base=101: disp32 without base when mod=0
                 if rng.random() < 0.2:
                     sib = (sib & 0xC7) | (4 << 3)  # no index
+                if rng.random() < 0.2 or force == "rsp":
+                    sib = (sib & 0xF8) | 4  # base = RSP/R12
                 b.append(sib)
                 base = sib & 7
             if mod == 1:
@@ -102,7 +123,8 @@ def gen_candidate(rng, opcode=None, two_byte=None):
                 b.append(rng.choice([0, 1, 0x7f, 0x80, 0xff, 8, 0xf8, rng.randrange(256)]))
             elif mod == 2 or (mod == 0 and (rm == 5 or base == 5)):
                 c.disp_at, c.disp_size = len(b), 4
-                d = rng.choice([0, 1, 0x10, 0x7fffffff, 0x80000000, 0xffffffff, 0xfffffff8, rng.randrange(1 << 32)])
+                d = rng.choice([0, 1, 0x10, 0x7fffffff, 0x80000000, 0xffffffff, 0xfffffff8, 0xfffffffc, 0xffffff00,
+                                rng.randrange(1 << 32)])
                 b += d.to_bytes(4, "little")
     # immediates / tail
     tail = bytearray(rng.randbytes(8))
@@ -225,14 +247,21 @@ def make_state(rng, cand, d, rip, want_fault=None):
                 bi, bb = REGIDX[base]
                 if base == index:
                     pass
+                elif bb == 32:
+                    # 32-bit address size: the sum wraps at 2^32 and the upper register halves are ignored
+                    regs[bi] = ((T - seg - disp - iv * scale) & 0xffffffff) | (rng.choice([0, 0, 1, 0xdeadbeef, 0xffffffff]) << 32)
+                    if index in REGIDX and index != base and REGIDX[index][0] != 6:
+                        regs[REGIDX[index][0]] = (regs[REGIDX[index][0]] & 0xffffffff) | (rng.choice([0, 1, 0xffffffff]) << 32)
                 else:
                     regs[bi] = (T - seg - disp - iv * scale) & M64
             elif index in REGIDX:
                 # index only: need index*scale + disp = T
                 ii, ib = REGIDX[index]
-                q = (T - seg - disp) & M64
+                q = (T - seg - disp) & (M64 if ib == 64 else 0xffffffff)
                 if q % scale == 0:
                     regs[ii] = q // scale
+                    if ib == 32:
+                        regs[ii] |= rng.choice([0, 1, 0xffffffff]) << 32
     # areas (start, len, prot, data)
     def blob(n):
         if rng.random() < 0.2:
@@ -254,7 +283,116 @@ def make_state(rng, cand, d, rip, want_fault=None):
         for a in areas:
             if a[0] <= w < a[0] + a[1] - 48:
                 a[3][w] = blob(48)
+    if rng.random() < 0.4:
+        apply_value_pairs(rng, case, d, T if has_mem and placement in ("rw", "rwx", "edge") else None)
     return case
+
+
+WIDTH_OF = {}
+for _n in GPR64:
+    WIDTH_OF[_n] = 64
+for _n in "EAX EBX ECX EDX ESI EDI ESP EBP R8D R9D R10D R11D R12D R13D R14D R15D".split():
+    WIDTH_OF[_n] = 32
+for _n in "AX BX CX DX SI DI SP BP R8W R9W R10W R11W R12W R13W R14W R15W".split():
+    WIDTH_OF[_n] = 16
+LOW8 = "AL BL CL DL SIL DIL SPL BPL R8L R9L R10L R11L R12L R13L R14L R15L".split()
+for _i, _n in enumerate(LOW8):
+    WIDTH_OF[_n] = 8
+    REG8 = globals().setdefault("REG8", {})
+    REG8[_n] = _i
+
+
+def value_pairs(rng, w):
+    """operand pairs on the carry / overflow / sign boundaries of width w"""
+    m = (1 << w) - 1
+    top = 1 << (w - 1)
+    x = rng.randrange(1 << w)
+    return rng.choice([
+        (x, m - x), (x, (m - x + 1) & m), (m, 0), (m, 1), (0, m), (top, top), (top - 1, 1), (top, m), (top, 1),
+        (top - 1, top - 1), (x, x), (0, 0), (1, m), (m, m), (top, top - 1), ((1 << (w // 2)), (1 << (w // 2 - 1))),
+        (3, 1 << (w - 2)), (m - 0xffff, 0x8001 if w > 16 else 3)])
+
+
+def set_reg_view(regs, name, v):
+    if name in REGIDX:
+        i, b = REGIDX[name]
+        if i == 6:
+            return False
+        if b == 64:
+            regs[i] = v
+        elif b == 32:
+            regs[i] = (regs[i] & ~0xffffffff & M64) | (v & 0xffffffff)
+        else:
+            regs[i] = (regs[i] & ~0xffff & M64) | (v & 0xffff)
+        return True
+    if name in globals().get("REG8", {}):
+        i = REG8[name]
+        if i == 6:
+            return False
+        regs[i] = (regs[i] & ~0xff & M64) | (v & 0xff)
+        return True
+    return False
+
+
+def apply_value_pairs(rng, case, d, T):
+    regs = case["regs"]
+    fam = d["code"].split("_")[0]
+    r0, r1 = d["r0"], d["r1"]
+    w = WIDTH_OF.get(r0) or WIDTH_OF.get(r1)
+    if fam in ("Div", "Idiv", "Mul", "Imul") and d["op_count"] == "1":
+        w = WIDTH_OF.get(r0)
+        if not w and d["k0"] == "Memory":
+            w = {"rm8": 8, "rm16": 16, "rm32": 32, "rm64": 64}.get(d["code"].split("_")[-1])
+        if not w:
+            return
+        m = (1 << w) - 1
+        top = 1 << (w - 1)
+        # divisor, and a dividend whose quotient sits on the representable boundary
+        dv = rng.choice([1, m, 2, top, top - 1, 3, rng.randrange(1, 1 << w)])
+        sdv = dv - (1 << w) if dv & top else dv
+        q = rng.choice([top, top - 1, m, (1 << w), top + 1, 0, 1]) if fam == "Div" else rng.choice([-top, top - 1, top, -top - 1, -1, 0])
+        rem = rng.randrange(0, min(abs(sdv) if fam != "Div" else dv, 1 << 16) or 1)
+        if fam == "Div":
+            dividend = q * dv + rem
+        else:
+            dividend = q * sdv + (rem if q * sdv >= 0 else -rem)
+        dividend &= (1 << (2 * w)) - 1
+        lo, hi = dividend & m, dividend >> w
+        if d["k0"] == "Register":
+            if not set_reg_view(regs, r0, dv):
+                return
+        elif T is not None:
+            for a in case["areas"]:
+                if a[0] <= T < a[0] + a[1] - 8:
+                    a[3][T] = dv.to_bytes(w // 8, "little")
+        else:
+            return
+        if w == 8:
+            regs[0] = (regs[0] & ~0xffff & M64) | (dividend & 0xffff)
+        else:
+            set_reg_view(regs, {16: "AX", 32: "EAX", 64: "RAX"}[w], lo)
+            set_reg_view(regs, {16: "DX", 32: "EDX", 64: "RDX"}[w], hi)
+        return
+    if not w:
+        return
+    a, b = value_pairs(rng, w)
+    a &= (1 << w) - 1
+    b &= (1 << w) - 1
+    if d["k0"] == "Register" and d["k1"] == "Register" and r0 != r1:
+        set_reg_view(regs, r0, a)
+        set_reg_view(regs, r1, b)
+    elif d["k0"] == "Memory" and d["k1"] == "Register" and T is not None:
+        if set_reg_view(regs, r1, b):
+            for ar in case["areas"]:
+                if ar[0] <= T < ar[0] + ar[1] - 8:
+                    ar[3][T] = a.to_bytes(w // 8, "little")
+    elif d["k0"] == "Register" and d["k1"] == "Memory" and T is not None:
+        if set_reg_view(regs, r0, a):
+            for ar in case["areas"]:
+                if ar[0] <= T < ar[0] + ar[1] - 8:
+                    ar[3][T] = b.to_bytes(w // 8, "little")
+    if rng.random() < 0.5:
+        case["flags"] |= 1   # carry in
 
 
 def emu_lines(cid, case, extra_ops=()):
@@ -308,11 +446,16 @@ def generate(axh, seed, n, codes_filter=None, per_code_cap=None):
     stubs = set(table["stubs"])
     out = []
     count = {}
+    shape_count = {}
     rip = CODE_BASE + 0x100
     rounds = 0
     while len(out) < n and rounds < 60:
         rounds += 1
         cands = [gen_candidate(rng) for _ in range(max(4000, n))]
+        cands += [gen_candidate(rng, force="a32") for _ in range(max(800, n // 5))]
+        cands += [gen_candidate(rng, force="rsp") for _ in range(max(400, n // 10))]
+        cands += [gen_candidate(rng, force="stackrsp") for _ in range(max(200, n // 20))]
+        rng.shuffle(cands)
         decs = decode_bulk(axh, cands, rip)
         for c, toks in zip(cands, decs):
             d = dec_dict(toks)
@@ -324,9 +467,22 @@ def generate(axh, seed, n, codes_filter=None, per_code_cap=None):
             cap = per_code_cap or max(4, (3 * n) // 300)
             if d["code"] in stubs:
                 cap = 2
-            if k >= cap:
+            # rare operand shapes get their own small quota so that they are not crowded out
+            shape = []
+            if d["base"] in REGIDX and REGIDX[d["base"]][1] == 32 or d["index"] in REGIDX and REGIDX[d["index"]][1] == 32 or d["base"] == "EIP":
+                shape.append("a32")
+            if d["seg"] in ("FS", "GS"):
+                shape.append("seg")
+            if any(d[x] in ("RSP", "ESP", "SP", "SPL") for x in ("r0", "r1", "base")):
+                shape.append("rsp")
+            if d["base"] in ("RBP", "R13", "R12") or d["index"] != "None":
+                shape.append("sib")
+            skey = (d["code"], tuple(shape))
+            sk = shape_count.get(skey, 0)
+            if k >= cap and not (shape and sk < max(2, cap // 8) and d["code"] not in stubs):
                 continue
             count[d["code"]] = k + 1
+            shape_count[skey] = sk + 1
             case = make_state(rng, c, d, rip)
             out.append(case)
             if len(out) >= n:
